@@ -232,7 +232,7 @@ pub fn profile(prop: &str) -> Option<Profile> {
             let mut fo = Vec::new();
             for kind in 0..4u8 {
                 for depth in 0..3u8 {
-                    for sink in 0..3u8 {
+                    for sink in 0..4u8 {
                         fo.push(f(Op::Lazy, kind, 0, sink, depth));
                     }
                 }
